@@ -24,7 +24,10 @@ pub fn main(a: &Args) {
     let steps = a.num("steps", 14);
     let mut out = Out::create(a.req("out"));
     let mut reg = SeedRegistry::new();
-    let seeds: Vec<SeedId> = (0..4).map(|i| reg.register_static(Triple { subject: i, predicate: 1, object: i }, 0.5).unwrap()).collect();
+    let mut seeds: Vec<SeedId> = (0..3).map(|i| reg.register_static(Triple { subject: i, predicate: 1, object: i }, 0.5).unwrap()).collect();
+    seeds.push(reg.register_exclusive(0, Triple { subject: 3, predicate: 1, object: 3 }, 0.5).unwrap());
+    let snapshot = reg.snapshot_all();
+    let b = |x: bool| if x { "t" } else { "f" };
     for run in 1..=n {
         let mut rng = Rng::new(seed.wrapping_mul(7_000_003).wrapping_add(run));
         out.ev(json!({"ev": "reset", "run": run, "case": {"seed": seed, "run": run, "steps": steps}}));
@@ -60,6 +63,8 @@ pub fn main(a: &Args) {
             e["id"] = json!(id.get());
             e["len"] = json!(st.len());
             e["node"] = node_json(st.node(id));
+            let m = st.metadata(id, &snapshot);
+            e["meta"] = json!({"neg": b(m.has_negation), "excl": b(m.has_exclusive_group), "cyc": b(m.has_cycle), "mono": b(m.monotone)});
             out.ev(e);
         }
     }
